@@ -360,3 +360,10 @@ LEVEL_TEXT["C08"] += " Also checked on masks of > 100 000 pixels (one-pixel edit
 LEVEL_TEXT["C09"] += " One-byte label arrays with many overlapping pairs per frame pair (bulk path); pixel-less nodes (IoU 0)."
 LEVEL_TEXT["C05"] += " Ids given as numpy integers; one attributes dict object re-used by the caller for several adds (defect D23, repaired)."
 LEVEL_TEXT["C13"] += " Segmentation given as paths (TIFF folder incl. frames of different dtypes — defect D22, repaired —, one TIFF whose name was imported before with other content, the same builder object twice)."
+
+# ---- round 9 (package R9C) -----------------------------------------------------------------------
+REQUIRED_THEOREMS["C05"] += ["C05_reused_dict_fixed", "C05_reused_dict_fixed_reach", "C05_counterexample_reused_dict_unfixed",
+                             "C05_counterexample_reused_dict_unfixed_prop", "C05_reused_dict_unfixed_needs_reuse",
+                             "C05_unfixed_dict_lineage_sticks"]
+REQUIRED_THEOREMS["C12"] += ["C12_counterexample_stack_missing_or", "C12_stack_missing_or_step"]
+ASSUMPTIONS["C12"] += ["a list-mapped (stacked) node property has all its components present on every node: the driver's model stacks per row, the real code ORs the missing masks per column (C12_counterexample_stack_missing_or; the generators never leave a component out)"]
